@@ -118,3 +118,9 @@ def run(chk):
         ]
     finally:
         tlc.cleanup(rd)
+
+
+def replay(chk, path):
+    from ._plan import replay_case
+
+    return replay_case(chk, path)
